@@ -519,7 +519,7 @@ fn main() {
     }
     let max_len = ctx.pick(4, 5);
     // pairs: rectangles (|name| <= n, |remote| <= r); a pair covered by an earlier rectangle is skipped
-    let rectangles: Vec<(usize, usize)> = ctx.pick(vec![(2, 2), (3, 1), (1, 3)], vec![(3, 2), (2, 3), (4, 1), (1, 4)]);
+    let rectangles: Vec<(usize, usize)> = ctx.pick(vec![(2, 2)], vec![(3, 2), (2, 3), (4, 1), (1, 4)]);
 
     let evals = Counter::new();
     let strings = Counter::new();
